@@ -13,6 +13,10 @@
 //  2. JSON. Every --json command and JSON export to "-": stdout decodes as exactly one JSON value followed
 //     by white space only, in six configuration situations (first run with the default config dir,
 //     second run, existing but outdated config, --conf <fresh dir>, --conf <existing dir>, --conf disable).
+//  4. Multi-input forms mixing files and "-" (multi.go): info, validate, form list, images list,
+//     permissions list, merge, import with 2 and 3 inputs, every position failing in turn, the failing
+//     input as a file or on stdin, text and JSON: same exit status as the all-files form (non-zero when
+//     an input cannot be read) and, when both succeed, the same listing / JSON entries / document.
 //  3. Failures. Missing file, non-PDF bytes or nothing on stdin, wrong password, refused overwrite:
 //     exit status != 0 and nothing that looks like a complete PDF on stdout; truncated input: exit 0 iff
 //     a valid PDF was produced.
@@ -87,8 +91,8 @@ func main() {
 		for _, l := range leaves {
 			e.helpOf[l.Path] = l.Help
 		}
-		sf, jf := streamForms(), jsonForms()
-		e.coverage(leaves, sf, jf)
+		sf, jf, mf := streamForms(), jsonForms(), multiForms()
+		e.coverage(leaves, sf, jf, mf)
 
 		if t.Replay != nil {
 			var rc replayCase
@@ -99,6 +103,7 @@ func main() {
 		t.Rule("case = (command form, stream mode | configuration situation | failure kind, input file); each case is one or more runs of the real binary in a fresh sandbox; non-trivial = every case that reached a verdict (outputs compared canonically, stdout framed, exit status checked); distinct by that tuple")
 		t.Assume("equivalence of two outputs: equal pdfstrict canonical form of {Root, Info} with /ID, /CreationDate, /ModDate dropped (encrypted outputs decrypted with the CLI first); if two FILE-form runs already differ the case is inconclusive")
 		t.Assume("listing commands: stdout equal as a multiset of words after masking the source name (file name vs stdin label) and wall-clock stamps; directory-producing commands: same multiset of canonical outputs, file names ignored (they embed the source name)")
+		t.Assume("multi-input forms (info, validate, form list, images list, permissions list, merge, import with 2 and 3 inputs): an input that is not a PDF / image, is empty, is missing or needs a password that is not given must make the command fail whether it is named as a file or delivered on stdin; a truncated input may be repaired, so only agreement with the all-files form is required; results are compared only when both forms exit 0")
 		t.Assume("failure cases: a missing file, non-PDF / empty stdin, a wrong password for an AES-256 encrypted input and an existing output without --force must make the command fail; a truncated PDF may be repaired, so only consistency (exit 0 iff a valid PDF came out) is required")
 		t.Exhaustive(e.only == nil)
 
@@ -118,6 +123,14 @@ func main() {
 				continue
 			}
 			jobs = append(jobs, func() { e.runJSONForm(jf1) })
+		}
+		for _, m := range mf {
+			if e.only != nil && !e.only.MatchString("multi/"+m.name) {
+				continue
+			}
+			for _, j := range e.multiJobs(m) {
+				jobs = append(jobs, job(j))
+			}
 		}
 		if t.Replay == nil {
 			for _, c := range e.corpus(t.Pick(1, 8)) {
@@ -164,7 +177,7 @@ func (e *env) corpus(n int) []string {
 	return out
 }
 
-func (e *env) coverage(leaves []clirun.Leaf, sf []sform, jf []jform) {
+func (e *env) coverage(leaves []clirun.Leaf, sf []sform, jf []jform, mf []mform) {
 	t := e.t
 	driven := map[string]bool{}
 	for _, f := range sf {
@@ -174,9 +187,18 @@ func (e *env) coverage(leaves []clirun.Leaf, sf []sform, jf []jform) {
 	for _, f := range jf {
 		jdriven[f.leaf] = true
 	}
-	var uncovered, unJSON []string
+	mdriven := map[string]bool{}
+	for _, f := range mf {
+		mdriven[f.leaf] = true
+	}
+	var uncovered, unJSON, unMulti []string
 	n := 0
 	for _, l := range leaves {
+		if strings.Contains(l.Usage, "inFile...") || strings.Contains(l.Usage, "imageFile...") {
+			if _, ok := notMultiStreaming[l.Path]; !ok && !mdriven[l.Path] {
+				unMulti = append(unMulti, l.Path)
+			}
+		}
 		if l.HasInArg() || l.HasOutArg() {
 			n++
 			if !driven[l.Path] {
@@ -200,10 +222,13 @@ func (e *env) coverage(leaves []clirun.Leaf, sf []sform, jf []jform) {
 	t.Count("uncovered_json_leaves", int64(len(unJSON)))
 	t.Count("stream_forms_in_table", int64(len(sf)))
 	t.Count("json_forms_in_table", int64(len(jf)))
+	t.Count("multi_input_forms_in_table", int64(len(mf)))
+	t.Count("uncovered_multi_input_leaves", int64(len(unMulti)))
+	t.Extra("uncovered_multi_input", unMulti)
 	t.Extra("uncovered", uncovered)
 	t.Extra("uncovered_json", unJSON)
 	t.Extra("declared_not_streaming", declared)
-	for _, u := range append(uncovered, unJSON...) {
+	for _, u := range append(append(uncovered, unJSON...), unMulti...) {
 		fmt.Printf("UNCOVERED: property=C41 leaf %q is not driven by the table\n", u)
 	}
 }
